@@ -1,7 +1,7 @@
 //! Step functions registered through the REAL `#[given]` attribute, one per way of spelling a fallible return type.
 //! The compiler's MIR of the code the macro generates for them is what checks/macro_probe.py executes symbolically.
 #![allow(dead_code, clippy::all)]
-use cucumber::{given, World};
+use cucumber::{given, then, when, World};
 
 #[derive(Debug, Default, World)]
 pub struct W;
@@ -47,4 +47,25 @@ async fn ret_async_alias(_: &mut W) -> TestResult {
 #[given("async direct")]
 async fn ret_async_direct(_: &mut W) -> Result<(), String> {
     Err("async direct".to_owned())
+}
+
+// ---- registration / dispatch probes (C19)
+
+#[when("when literal (with) meta.chars?")]
+fn when_literal(_: &mut W) {}
+
+#[then(regex = r"^then (\d+) and (\S+)$")]
+fn then_two_args(_: &mut W, n: u64, s: String) {
+    let _ = (n, s);
+}
+
+#[given(regex = r"^step arg (\d+)$")]
+fn given_step_arg(_: &mut W, n: u64, #[step] st: &cucumber::gherkin::Step) {
+    let _ = (n, st);
+}
+
+#[when(regex = r"^async (-?\d+)$")]
+async fn when_async_arg(_: &mut W, n: i32) -> Result<(), String> {
+    let _ = n;
+    Ok(())
 }
